@@ -36,16 +36,19 @@ pub struct Plan {
     pub cuts: Vec<usize>,
     /// close the stream after the last segment instead of sending the rest
     pub truncate_at: Option<usize>,
+    /// the receiving socket is non-blocking (the library then retries "would block" itself; a
+    /// message that arrives in pieces must still be completed, not abandoned)
+    pub nonblock: bool,
 }
 
 impl Plan {
     fn whole() -> Plan {
-        Plan { cuts: vec![], truncate_at: None }
+        Plan { cuts: vec![], truncate_at: None, nonblock: false }
     }
     fn id(&self) -> String {
         match self.truncate_at {
-            Some(t) => format!("cut{t}"),
-            None => format!("split{:?}", self.cuts),
+            Some(t) => format!("cut{t}{}", if self.nonblock { "nb" } else { "" }),
+            None => format!("split{:?}{}", self.cuts, if self.nonblock { "nb" } else { "" }),
         }
     }
 }
@@ -83,6 +86,9 @@ fn feed<R: Send + 'static>(
     let tid = Arc::new(AtomicI32::new(0));
     let done = Arc::new(AtomicBool::new(false));
     let (t2, d2) = (tid.clone(), done.clone());
+    if plan.nonblock {
+        sys::set_nonblocking(recv_fd, true);
+    }
     let h = std::thread::Builder::new()
         .name("hv-receiver".into())
         .spawn(move || {
@@ -323,59 +329,68 @@ fn plans_for(len: usize, rng: &mut Rng, thorough: bool) -> Vec<Plan> {
     let step2 = if len > 600 && !thorough { 29 } else if len > 1500 { 7 } else { 1 };
     let mut c = 1;
     while c < len {
-        v.push(Plan { cuts: vec![c], truncate_at: None });
+        v.push(Plan { cuts: vec![c], truncate_at: None, nonblock: false });
         c += step2;
     }
     for edge in [1usize, 11, 12, 13, 19, 20, 21, len.saturating_sub(1)] {
         if edge > 0 && edge < len {
-            v.push(Plan { cuts: vec![edge], truncate_at: None });
+            v.push(Plan { cuts: vec![edge], truncate_at: None, nonblock: false });
         }
     }
     // 3-splits: all pairs for short messages, sampled otherwise
     if len <= 48 {
         for a in 1..len {
             for b in a + 1..len {
-                v.push(Plan { cuts: vec![a, b], truncate_at: None });
+                v.push(Plan { cuts: vec![a, b], truncate_at: None, nonblock: false });
             }
         }
     } else {
         for _ in 0..if thorough { 120 } else { 16 } {
             let a = rng.range(1, len as u64 - 2) as usize;
             let b = rng.range(a as u64 + 1, len as u64 - 1) as usize;
-            v.push(Plan { cuts: vec![a, b], truncate_at: None });
+            v.push(Plan { cuts: vec![a, b], truncate_at: None, nonblock: false });
         }
         for (a, b) in [(4usize, 12usize), (12, 13), (11, 12), (12, len - 1), (1, 2)] {
             if a < b && b < len {
-                v.push(Plan { cuts: vec![a, b], truncate_at: None });
+                v.push(Plan { cuts: vec![a, b], truncate_at: None, nonblock: false });
             }
         }
     }
     // byte by byte
     if len <= 300 || thorough {
-        v.push(Plan { cuts: (1..len).collect(), truncate_at: None });
+        v.push(Plan { cuts: (1..len).collect(), truncate_at: None, nonblock: false });
+    }
+    // the same on a non-blocking receiver for the segmentations around the header/body boundary
+    for c in [1usize, 7, 11, 12, 13, len.saturating_sub(1)] {
+        if c > 0 && c < len {
+            v.push(Plan { cuts: vec![c], truncate_at: None, nonblock: true });
+        }
+    }
+    if len <= 300 {
+        v.push(Plan { cuts: (1..len).collect(), truncate_at: None, nonblock: true });
     }
     // header / body in separate writes, random segmentations
     for _ in 0..if thorough { 12 } else { 3 } {
         let mut cuts: Vec<usize> = (1..len).filter(|_| rng.chance(1, 6)).collect();
         cuts.dedup();
-        v.push(Plan { cuts, truncate_at: None });
+        v.push(Plan { cuts, truncate_at: None, nonblock: false });
     }
     v
 }
 
 fn cut_plans(len: usize, rng: &mut Rng, thorough: bool) -> Vec<Plan> {
     let step = if len > 600 && !thorough { 41 } else if len > 1500 { 9 } else { 1 };
-    let mut v: Vec<Plan> = (0..len).step_by(step).map(|t| Plan { cuts: vec![], truncate_at: Some(t) }).collect();
+    let mut v: Vec<Plan> = (0..len).step_by(step).map(|t| Plan { cuts: vec![], truncate_at: Some(t), nonblock: false }).collect();
     for t in [0usize, 1, 11, 12, 13, len - 1] {
         if t < len {
-            v.push(Plan { cuts: vec![], truncate_at: Some(t) });
+            v.push(Plan { cuts: vec![], truncate_at: Some(t), nonblock: false });
         }
     }
     // truncation after a split
     for _ in 0..4 {
         let t = rng.range(2, len as u64 - 1) as usize;
         let c = rng.range(1, t as u64 - 1) as usize;
-        v.push(Plan { cuts: vec![c], truncate_at: Some(t) });
+        v.push(Plan { cuts: vec![c], truncate_at: Some(t), nonblock: false });
     }
     v
 }
@@ -470,7 +485,7 @@ fn receive_side(cfg: &Cfg, rng: &mut Rng) {
             let b = seconds[(ai * 7 + 3) % seconds.len()].clone();
             let (sa, sb) = (Sym { op: a.clone(), nr: ai % 2 == 0, fail: false, offer_pf: true }, Sym { op: b, nr: ai % 3 == 0, fail: false, offer_pf: true });
             let len_a = 12 + sa.op.wire().0.len();
-            let reference = recv_srv_pair(&sa, &sb, &Plan { cuts: vec![len_a], truncate_at: None });
+            let reference = recv_srv_pair(&sa, &sb, &Plan { cuts: vec![len_a], truncate_at: None, nonblock: false });
             if !reference.returned {
                 report::inconclusive(&format!("pipelined {}: reference run did not return", sa.short()));
                 continue;
@@ -479,7 +494,7 @@ fn receive_side(cfg: &Cfg, rng: &mut Rng) {
             let mut cuts: Vec<usize> = (1..len_a).step_by(step).collect();
             cuts.extend([11usize, 12, 13, len_a - 1].into_iter().filter(|c| *c > 0 && *c < len_a));
             for c in cuts {
-                let o = recv_srv_pair(&sa, &sb, &Plan { cuts: vec![c], truncate_at: None });
+                let o = recv_srv_pair(&sa, &sb, &Plan { cuts: vec![c], truncate_at: None, nonblock: false });
                 report::eval(1);
                 report::count("backend-server.pipelined", 1);
                 report::distinct_str(&format!("pipe:{}:{}:{c}", sa.short(), sb.short()));
